@@ -9,10 +9,11 @@
    through Scanner::use_scalar_index, see KNOWN_FINDINGS.txt):
      not_over_nullable     NOT / <> / NOT IN / NOT BETWEEN (and `b = false`, planned as NOT b) above a leaf on an
                            indexed column that holds a NULL: the complement of an Exact answer contains the NULL rows
-     range_bounds_swapped  maybe_range fuses `x <= a AND x > b` into [b, a) and `x < a AND x >= b` into (b, a]
      bitmap_inverted_range BitmapIndex::search panics (BTreeMap::range) on a range whose bounds are inverted
                            (`x >= 7 AND x <= 1`, `x BETWEEN 7 AND 1`, `x > 5 AND x < 5`): no rows instead of the empty set
-   It is proved for everything outside the three classes. *)
+   It is proved for everything outside the two classes.  (A third class found by this development, range_bounds_swapped -
+   maybe_range exchanging the inclusivity of `x <= a AND x > b` - was repaired in /repo by c446062; its input is the
+   regression Example ex_range_bounds_regression and a fixed corpus case of the harness.) *)
 From LanceV Require Import Common.Base Core.Model_Mask Core.Proofs_Mask Index.Model_ExprResult Index.Proofs_ExprResult
   Index.Model_ScalarExpr Index.Proofs_ScalarExpr.
 Local Open Scope N_scope.
@@ -33,17 +34,17 @@ Qed.
 Print Assumptions C19_translator_total.
 
 (* row by row, the index part AND the refine part of the translation mean what the SQL predicate means:
-   for ALL predicate trees, index configurations and rows outside the two classes *)
+   for ALL predicate trees, index configurations and rows outside class not_over_nullable *)
 Theorem C19_translation_preserves_meaning : forall (en : env) (info : index_info) (r : rowT) (p : sexpr) (ie : iexp),
   parsers_ok info -> fn_definite en -> row_ok info r = true ->
   apply_scalar_indices info p = Ok ie ->
-  neg_over_null info r p = false -> range_swap_hit info r p = false ->
+  neg_over_null info r p = false ->
   is_true (eval en r p) =
     match scalar_query ie with Some sq => struth en r sq | None => true end && opt_true en r (refine_expr ie).
 Proof.
-  intros en info r p ie Hpar Hfn Hok Ea Hn Hs. unfold apply_scalar_indices in Ea.
+  intros en info r p ie Hpar Hfn Hok Ea Hn. unfold apply_scalar_indices in Ea.
   destruct (visit_node info p 0) as [[ie0|]| |] eqn:Ev; try discriminate; injection Ea as <-.
-  - destruct (visit_node_sound en info Hpar Hfn r Hok p 0 ie0 Ev Hn Hs) as [sq [Esq [HA _]]]. rewrite Esq. exact HA.
+  - destruct (visit_node_sound en info Hpar Hfn r Hok p 0 ie0 Ev Hn) as [sq [Esq [HA _]]]. rewrite Esq. exact HA.
   - reflexivity.
 Qed.
 Print Assumptions C19_translation_preserves_meaning.
@@ -65,7 +66,6 @@ Print Assumptions C19_sargable_search_exact.
 Theorem C19_index_eq_scan : forall (en : env) (info : index_info) (ixs : N -> option sindex) (tbl : list rowT) (p : sexpr),
   exact_info info -> fn_definite en -> table_ok info tbl -> indices_ok info ixs tbl ->
   Known_C19_not_over_nullable info tbl p = false ->
-  Known_C19_range_bounds_swapped info tbl p = false ->
   Known_C19_bitmap_inverted_range info ixs p = false ->
   sdepth p < MAX_DEPTH ->
   index_scan en info (exact_search ixs) (exact_cov ixs) tbl p = Ok (full_scan en tbl p).
@@ -76,12 +76,11 @@ Print Assumptions C19_index_eq_scan.
 Theorem C19_index_eq_scan_null_free : forall (en : env) (info : index_info) (ixs : N -> option sindex) (tbl : list rowT) (p : sexpr),
   exact_info info -> fn_definite en -> table_ok info tbl -> indices_ok info ixs tbl ->
   null_free info tbl p = true ->
-  Known_C19_range_bounds_swapped info tbl p = false ->
   Known_C19_bitmap_inverted_range info ixs p = false ->
   sdepth p < MAX_DEPTH ->
   index_scan en info (exact_search ixs) (exact_cov ixs) tbl p = Ok (full_scan en tbl p).
 Proof.
-  intros en info ixs tbl p H1 H2 H3 H4 Hnf H5 H6 H7.
+  intros en info ixs tbl p H1 H2 H3 H4 Hnf H6 H7.
   apply exact_index_scan_eq_scan; try assumption. apply null_free_not_known. exact Hnf.
 Qed.
 Print Assumptions C19_index_eq_scan_null_free.
@@ -90,12 +89,11 @@ Print Assumptions C19_index_eq_scan_null_free.
 Theorem C19_index_eq_scan_negation_free : forall (en : env) (info : index_info) (ixs : N -> option sindex) (tbl : list rowT) (p : sexpr),
   exact_info info -> fn_definite en -> table_ok info tbl -> indices_ok info ixs tbl ->
   negation_free p = true ->
-  Known_C19_range_bounds_swapped info tbl p = false ->
   Known_C19_bitmap_inverted_range info ixs p = false ->
   sdepth p < MAX_DEPTH ->
   index_scan en info (exact_search ixs) (exact_cov ixs) tbl p = Ok (full_scan en tbl p).
 Proof.
-  intros en info ixs tbl p H1 H2 H3 H4 Hnf H5 H6 H7.
+  intros en info ixs tbl p H1 H2 H3 H4 Hnf H6 H7.
   apply exact_index_scan_eq_scan; try assumption. apply negation_free_not_known. exact Hnf.
 Qed.
 Print Assumptions C19_index_eq_scan_negation_free.
@@ -110,7 +108,6 @@ Theorem C19_any_truthful_index_eq_scan : forall (en : env) (info : index_info)
   (forall ie sq, apply_scalar_indices info p = Ok ie -> scalar_query ie = Some sq ->
      forall l, In l (s_leaves sq) -> leaf_ok en search cov ltruth tbl l) ->
   Known_C19_not_over_nullable info tbl p = false ->
-  Known_C19_range_bounds_swapped info tbl p = false ->
   apply_scalar_indices info p <> Err ->
   index_scan en info search cov tbl p = Ok (full_scan en tbl p).
 Proof. exact index_scan_eq_scan. Qed.
@@ -134,7 +131,6 @@ Definition run (info_l : list (N * (bool * list (N * parser)))) (tbl : list rowT
 (* F1: x = [1, 5, NULL], B-tree on x, `x <> 5`: the index path returns rows 0 and 2 (the NULL), a scan row 0 *)
 Theorem C19_not_over_nullable_refuted : exists info tbl p,
   Known_C19_not_over_nullable info tbl p = true /\
-  Known_C19_range_bounds_swapped info tbl p = false /\
   Known_C19_bitmap_inverted_range info (ixs_of tbl [(0, (0, [0], false))]) p = false /\
   (let ixs := ixs_of tbl [(0, (0, [0], false))] in
    index_scan plain_env info (exact_search ixs) (exact_cov ixs) tbl p = Ok [0; 2]) /\
@@ -145,26 +141,24 @@ Proof.
 Qed.
 Print Assumptions C19_not_over_nullable_refuted.
 
-(* x = [1, 5, NULL, 7], B-tree on x, `x <= 5 AND x > 1`: the index path returns row 0 (x = 1), a scan row 1 (x = 5) *)
-Theorem C19_range_bounds_swapped_refuted : exists info tbl p,
-  Known_C19_range_bounds_swapped info tbl p = true /\
-  Known_C19_not_over_nullable info tbl p = false /\
-  Known_C19_bitmap_inverted_range info (ixs_of tbl [(0, (0, [0], false))]) p = false /\
-  (let ixs := ixs_of tbl [(0, (0, [0], false))] in
-   index_scan plain_env info (exact_search ixs) (exact_cov ixs) tbl p = Ok [0]) /\
-  full_scan plain_env tbl p = [1].
-Proof.
-  exists (info_of int_col0), (rows_of [Some 1%Z; Some 5%Z; None; Some 7%Z]),
-    (XAnd (XCmp OLtEq (TCol 0) (TLit (LVal 5%Z))) (XCmp OGt (TCol 0) (TLit (LVal 1%Z)))).
-  vm_compute. repeat split.
-Qed.
-Print Assumptions C19_range_bounds_swapped_refuted.
+(* regression (c446062): x = [1, 5, NULL, 7], B-tree on x: `x <= 5 AND x > 1` is searched as (1, 5] and
+   `x < 5 AND x >= 1` as [1, 5); both paths return the same rows *)
+Example ex_range_bounds_regression :
+  let info := info_of int_col0 in
+  let tbl := rows_of [Some 1%Z; Some 5%Z; None; Some 7%Z] in
+  let ixs := ixs_of tbl [(0, (0, [0], false))] in
+  let p1 := XAnd (XCmp OLtEq (TCol 0) (TLit (LVal 5%Z))) (XCmp OGt (TCol 0) (TLit (LVal 1%Z))) in
+  let p2 := XAnd (XCmp OLt (TCol 0) (TLit (LVal 5%Z))) (XCmp OGtEq (TCol 0) (TLit (LVal 1%Z))) in
+  apply_scalar_indices info p1 = Ok (mk_iexp (Some (SQuery (mk_leaf 0 0 (QRange (BExcl (LVal 1%Z)) (BIncl (LVal 5%Z))) false))) None) /\
+  apply_scalar_indices info p2 = Ok (mk_iexp (Some (SQuery (mk_leaf 0 0 (QRange (BIncl (LVal 1%Z)) (BExcl (LVal 5%Z))) false))) None) /\
+  index_scan plain_env info (exact_search ixs) (exact_cov ixs) tbl p1 = Ok [1] /\ full_scan plain_env tbl p1 = [1] /\
+  index_scan plain_env info (exact_search ixs) (exact_cov ixs) tbl p2 = Ok [0] /\ full_scan plain_env tbl p2 = [0].
+Proof. vm_compute. repeat split. Qed.
 
 (* x = [1, 5, NULL, 7], BITMAP index on x, `x >= 7 AND x <= 1`: the index path panics, a scan returns no row *)
 Theorem C19_bitmap_inverted_range_refuted : exists info tbl p,
   Known_C19_bitmap_inverted_range info (ixs_of tbl [(0, (0, [0], true))]) p = true /\
   Known_C19_not_over_nullable info tbl p = false /\
-  Known_C19_range_bounds_swapped info tbl p = false /\
   (let ixs := ixs_of tbl [(0, (0, [0], true))] in
    index_scan plain_env info (exact_search ixs) (exact_cov ixs) tbl p = Panic) /\
   full_scan plain_env tbl p = [].
@@ -233,7 +227,7 @@ Definition sweep_env : env :=
 Definition sweep_ok (bm : bool) (p : sexpr) : bool :=
   let info := info_of int_col0 in
   let ixs := ixs_of sweep_tbl [(0, (0, [0], bm))] in
-  Known_C19_not_over_nullable info sweep_tbl p || Known_C19_range_bounds_swapped info sweep_tbl p ||
+  Known_C19_not_over_nullable info sweep_tbl p ||
   Known_C19_bitmap_inverted_range info ixs p ||
   match index_scan sweep_env info (exact_search ixs) (exact_cov ixs) sweep_tbl p with
   | Ok rows => list_eqb N.eqb rows (full_scan sweep_env sweep_tbl p)
@@ -247,7 +241,6 @@ Example ex_nonvacuous :
   let info := info_of int_col0 in
   let p := XAnd (XOr (XCmp OLt (TCol 0) (TLit (LVal 2%Z))) (XIsNull (TCol 0))) (XOther 3) in
   Known_C19_not_over_nullable info sweep_tbl p = false /\
-  Known_C19_range_bounds_swapped info sweep_tbl p = false /\
   Known_C19_bitmap_inverted_range info (ixs_of sweep_tbl [(0, (0, [0], true))]) p = false /\
   forallb (row_ok info) sweep_tbl = true /\
   (let ixs := ixs_of sweep_tbl [(0, (0, [0], true))] in
